@@ -296,7 +296,7 @@ bytes) in any other segmentation.  With a dispatcher that does its part (`DispNe
 states that answer alike, the replies to the lines that stay are the same in both runs, and the
 dispatcher ends in states that answer alike. -/
 theorem neutral_lines_removable (T : Tables) (L : Lib J) (d : Disp σ J) (R : σ → σ → Prop) (hd : DispNeutral T d R)
-    (st st' : σ) (hst : R st st') (m : Marked) (hm : OnlyNeutralDropped T m)
+    (st st' : σ) (hst : R st st') (m : Marked) (hm : OnlyNeutralDropped T L m)
     (chunks chunks' : List Bytes) (tail tail' : Bytes)
     (h : IsFraming chunks.flatten (allLines m) tail) (h' : IsFraming chunks'.flatten (keptLines m) tail') :
     keptOf m ((replies (serve T L d [] st chunks).outs).map (·.msg))
@@ -314,7 +314,7 @@ theorem neutral_lines_removable (T : Tables) (L : Lib J) (d : Disp σ J) (R : σ
 first connection (and on the second), every line that stays on the second connection gets the
 same reply -/
 theorem other_connections_unaffected (T : Tables) (L : Lib J) (d : Disp σ J) (R : σ → σ → Prop) (hd : DispNeutral T d R)
-    (st : σ) (mA mB : Marked) (hA : OnlyNeutralDropped T mA) (hB : OnlyNeutralDropped T mB)
+    (st : σ) (mA mB : Marked) (hA : OnlyNeutralDropped T L mA) (hB : OnlyNeutralDropped T L mB)
     (a a' b b' : List Bytes) (ta ta' tb tb' : Bytes)
     (ha : IsFraming a.flatten (allLines mA) ta) (ha' : IsFraming a'.flatten (keptLines mA) ta')
     (hb : IsFraming b.flatten (allLines mB) tb) (hb' : IsFraming b'.flatten (keptLines mB) tb') :
@@ -329,7 +329,7 @@ variable {ν κ : Type}
 node (`NodeIf`: any modules, any descriptive data, any event bookkeeping) and any two subscription
 states: no hypothesis on the dispatcher is left -/
 theorem dispatcher_answers_independent (L : Lib J) (N : NodeIf ν κ J) (nu : ν) (k k' : κ)
-    (m : Marked) (hm : OnlyNeutralDropped tables m) (chunks chunks' : List Bytes) (tail tail' : Bytes)
+    (m : Marked) (hm : OnlyNeutralDropped tables L m) (chunks chunks' : List Bytes) (tail tail' : Bytes)
     (h : IsFraming chunks.flatten (allLines m) tail) (h' : IsFraming chunks'.flatten (keptLines m) tail') :
     keptOf m ((replies (serve tables L (dispatch tables dtables N) [] (nu, k) chunks).outs).map (·.msg))
       = (replies (serve tables L (dispatch tables dtables N) [] (nu, k') chunks').outs).map (·.msg) :=
@@ -845,10 +845,10 @@ def m0 : Marked :=
   [([100, 101, 115, 99, 114, 105, 98, 101], false), ([114, 101, 97, 100, 32, 109], true), ([99, 104, 97, 110, 103, 101, 32, 109, 32, 116], true), ([100, 101, 115, 99, 114, 105, 98, 101, 32, 109], false),
    ([], false), ([100, 101, 115, 99, 114, 105, 98, 101, 32, 120], false), ([114, 101, 97, 100, 32, 109], true)]
 
-example : OnlyNeutralDropped tables m0 := by decide
+example : OnlyNeutralDropped tables L0 m0 := by decide
 
 /-- leaving out a `change` is not covered: it is not neutral -/
-example : ¬ OnlyNeutralDropped tables [([99, 104, 97, 110, 103, 101, 32, 109, 32, 116], false)] := by decide
+example : ¬ OnlyNeutralDropped tables L0 [([99, 104, 97, 110, 103, 101, 32, 109, 32, 116], false)] := by decide
 
 /-- the two runs of `dispatcher_answers_independent` on `m0`, evaluated: the three lines that stay get
 `reply m true`, `changed m true`, `reply m false` in both (the answer to `read m` does depend on the
@@ -867,15 +867,21 @@ example :
 
 /-- the monitor accepts answers that stay and rejects an answer that changes when an earlier
 `describe` is left out (what a dispatcher does that keeps the first description it built) -/
-example : judgeIndep tables [([100, 101, 115, 99, 114, 105, 98, 101], false), ([100, 101, 115, 99, 114, 105, 98, 101, 32, 109], true)]
+example : judgeIndep tables L0 [([100, 101, 115, 99, 114, 105, 98, 101], false), ([100, 101, 115, 99, 114, 105, 98, 101, 32, 109], true)]
     [[100, 101, 115, 99, 114, 105, 98, 105, 110, 103, 32, 46, 32, 123, 34, 109, 111, 100, 117, 108, 101, 115, 34, 58, 32, 49, 125] ++ [10], [100, 101, 115, 99, 114, 105, 98, 105, 110, 103, 32, 109, 32, 123, 34, 97, 99, 99, 101, 115, 115, 105, 98, 108, 101, 115, 34, 58, 32, 50, 125] ++ [10]]
     [[100, 101, 115, 99, 114, 105, 98, 105, 110, 103, 32, 109, 32, 123, 34, 97, 99, 99, 101, 115, 115, 105, 98, 108, 101, 115, 34, 58, 32, 50, 125] ++ [10]] = .ok := by decide
 
-example : judgeIndep tables [([100, 101, 115, 99, 114, 105, 98, 101], false), ([100, 101, 115, 99, 114, 105, 98, 101, 32, 109], true)]
+example : judgeIndep tables L0 [([100, 101, 115, 99, 114, 105, 98, 101], false), ([100, 101, 115, 99, 114, 105, 98, 101, 32, 109], true)]
     [[100, 101, 115, 99, 114, 105, 98, 105, 110, 103, 32, 46, 32, 123, 34, 109, 111, 100, 117, 108, 101, 115, 34, 58, 32, 49, 125] ++ [10], [100, 101, 115, 99, 114, 105, 98, 105, 110, 103, 32, 109, 32, 123, 34, 109, 111, 100, 117, 108, 101, 115, 34, 58, 32, 49, 125] ++ [10]]
     [[100, 101, 115, 99, 114, 105, 98, 105, 110, 103, 32, 109, 32, 123, 34, 97, 99, 99, 101, 115, 115, 105, 98, 108, 101, 115, 34, 58, 32, 50, 125] ++ [10]] = .changed 0 := by decide
 
-example : judgeIndep tables [([99, 104, 97, 110, 103, 101, 32, 109, 32, 49], false), ([114, 101, 97, 100, 32, 109], true)] [] [] = .notNeutral 0 := by decide
+/-- leaving out `change m t` is a defect of the case; `change m 1` is not a message for `L0` (its JSON
+layer knows `t` and `f` only) and may be left out -/
+example : judgeIndep tables L0 [([99, 104, 97, 110, 103, 101, 32, 109, 32, 116], false), ([114, 101, 97, 100, 32, 109], true)] [] []
+    = .notNeutral 0 := by decide
+
+example : Removable tables L0 [99, 104, 97, 110, 103, 101, 32, 109, 32, 49] = true
+    ∧ Neutral tables [99, 104, 97, 110, 103, 101, 32, 109, 32, 49] = false := by decide
 
 /-- non-vacuity: the stream `x\n\ny\n` with a dispatcher that refuses everything sends 1 + 12 + 1
 frames; with a socket that fails at the fifth `sendall` the peer has four of them, two lines were
